@@ -214,6 +214,14 @@ Definition poly_geom (pts : list qpt) (closed : bool) : list gcmd :=
   | p :: t => GM p :: map GL t ++ (if closed then [GZ] else [])
   end.
 
+(** a polygon whose point list repeats its first point at the end: the repeated point adds no geometry (its segment is the
+    closing segment); Path.Close likewise turns a final LineTo that lands on the start point into the Close itself *)
+Definition drop_closing (pts : list qpt) : list qpt :=
+  match pts with
+  | p0 :: _ :: _ => if peq (last pts p0) p0 then removelast pts else pts
+  | _ => pts
+  end.
+
 Definition Qmin3 (a b c : Q) : Q := Qmin a (Qmin b c).
 
 (** SPECIFICATION geometry in user space (SVG 1.1 9.2-9.7; y down):
@@ -240,7 +248,7 @@ Definition spec_geom (s : shape) : list gcmd :=
       else [GM (cx + rx, cy); GA rx ry 0 false true (cx - rx, cy); GA rx ry 0 false true (cx + rx, cy); GZ]
   | SLine x1 y1 x2 y2 => [GM (x1, y1); GL (x2, y2)]
   | SPolyline pts => poly_geom pts false
-  | SPolygon pts => poly_geom pts true
+  | SPolygon pts => poly_geom (drop_closing pts) true
   | SPath d => path_geom d
   end.
 
@@ -464,7 +472,7 @@ Definition go_shape (s : shape) : qpt * list gcmd :=
   | SEllipse cx cy rx ry => ((cx, cy), go_ellipse rx ry)
   | SLine x1 y1 x2 y2 => ((0, 0), [GM (x1, y1); GL (x2, y2)])
   | SPolyline pts => ((0, 0), poly_geom pts false)
-  | SPolygon pts => ((0, 0), poly_geom pts true)
+  | SPolygon pts => ((0, 0), poly_geom (drop_closing pts) true)
   | SPath d => ((0, 0), map go_canon (path_geom d))
   end.
 
